@@ -21,8 +21,8 @@ Cases1 == { [buf |-> b, off |-> W8(o), w |-> w, es |-> es] :
               b \in SmallBufs, o \in 0..12, w \in {1, 2, 4}, es \in ES }
 Cases2 == { [buf |-> b, off |-> o, w |-> w, es |-> es] :
               b \in SmallBufs, o \in NearMax, w \in {1, 2, 8}, es \in {"LE", "AnyB"} }
-Cases3 == { [buf |-> b, off |-> W8(o), w |-> w, es |-> es] :
-              b \in WideBufs, o \in 0..10, w \in {4, 8}, es \in ES }
+Cases3 == { [buf |-> b, off |-> W8(o), w |-> w, es |-> es, signed |-> sg] :
+              b \in WideBufs, o \in 0..10, w \in {4, 8}, es \in ES, sg \in BOOLEAN }
 Cases4 == IF FullU16 THEN { [buf |-> <<a, b>>, off |-> W8(0), w |-> 2, es |-> es] :
                               a \in 0..255, b \in 0..255, es \in {"LE", "BE"} }
           ELSE {}
@@ -53,7 +53,8 @@ Prop_Same == \A a, b \in ES : IsLittle(a) = IsLittle(b) =>
 Exp(x) == LET r == ReadInt(x.buf, x.off, x.w, IsLittle(x.es))
           IN IF r.ok THEN [out |-> "ok", val |-> r.val, off |-> r.off, little |-> IsLittle(x.es), big |-> ~IsLittle(x.es)]
              ELSE [out |-> "err", off |-> r.off, little |-> IsLittle(x.es), big |-> ~IsLittle(x.es)]
+\* signed reads (parse_i32_at / parse_i64_at) return the same bytes: two's complement is a view, not a value change
 Emit == PrintT(ToJson([op |-> "read_int", buf |-> c.buf, off |-> c.off, w |-> c.w, es |-> c.es,
-                       signed |-> FALSE, exp |-> Exp(c)]))
+                       signed |-> (IF "signed" \in DOMAIN c THEN c.signed ELSE FALSE), exp |-> Exp(c)]))
 Inv == Prop_C04 /\ Emit
 =============================================================================
